@@ -1290,6 +1290,33 @@ pub fn gen(seed: u64, thorough: bool) -> Vec<String> {
                 specs.push(Spec { class: "edge", f, o, img: Img::from_rgba8(5, 4, &px), wit: None });
             }
         }
+        // L. opaque smooth content (per-pixel ramps with small slopes, low-amplitude noise): the blocks for which
+        // the many-index modes win; opacity clause at every quality including Unreasonable
+        for &q in &['F', 'N', 'H', 'U'] {
+            for &d in &['N', 'C'] {
+                let o = Opts { q, m: 'U', d };
+                for _ in 0..(2 * scale).min(24) {
+                    let mut r2 = Rng::new(rng.next());
+                    let bases: Vec<[u64; 3]> = (0..4).map(|_| [r2.below(200), r2.below(200), r2.below(200)]).collect();
+                    let steps: Vec<[u64; 3]> = (0..4).map(|_| [r2.below(4), r2.below(4), r2.below(4)]).collect();
+                    let img = block_row(4, |b, p| {
+                        let (x, y) = ((p % 4) as u64, (p / 4) as u64);
+                        let mut c = [0u8, 0, 0, 255];
+                        for k in 0..3 {
+                            let v = match b {
+                                0 => bases[b][k] + steps[b][k] * (x + 4 * y),
+                                1 => bases[b][k] + steps[b][k] * (x + y),
+                                2 => bases[b][k] + 2 * (x + 4 * y),
+                                _ => bases[b][k] + r2.below(24),
+                            };
+                            c[k] = v.min(255) as u8;
+                        }
+                        c
+                    });
+                    specs.push(Spec { class: "smooth", f, o, img, wit: None });
+                }
+            }
+        }
         // I. other input precisions (same content as rgba8 would give)
         for &prec in &[InPrec::Rgba16, InPrec::Rgba32, InPrec::Rgb8, InPrec::Gray8] {
             for &q in &quals {
